@@ -327,7 +327,34 @@ def r_observer_bookkeeping(ctx):
                           instance='%s footprint' % f.qualname)
         else:
             ctx.ok('%s footprint' % f.qualname, f.loc(), 'writes %s' % sorted(w))
-    ctx.expect_min(2)
+    # and it is complete: a connecting observer enters the observer set, the connected set and both index tables on every
+    # path (otherwise it never receives entries / is served from a stale index); a leaving one is removed from all four
+    con = R.slot_methods.get('setOnReadonlyNodeConnectedCallback')
+    dis = R.slot_methods.get('setOnReadonlyNodeDisconnectedCallback')
+    for f, verb, want_kinds in ((con, 'enters', {'add', 'elem_write'}), (dis, 'leaves', {'discard', 'remove', 'pop', 'elem_del'})):
+        cfg = U.explorer(ctx, f).cfg
+        for attr, what in ((R.observers, 'observer set'), (R.connected, 'connected set'), (R.nextIndex, 'next-index table'), (R.matchIndex, 'match-index table')):
+            inst = '%s: the node %s the %s on every path' % (f.qualname, verb, what)
+            ctx.tick()
+            nodes = []
+            for a in P.accesses(f):
+                if a.attr != attr:
+                    continue
+                k = a.kind
+                if k == 'mutcall' and isinstance(a.node, ast.Call) and isinstance(a.node.func, ast.Attribute):
+                    k = a.node.func.attr
+                if k in want_kinds:
+                    nn = U.node_containing(cfg, a.node)
+                    if nn is not None:
+                        nodes.append(nn.id)
+            if nodes and cfg.exit.id not in cfg.reachable_from(cfg.entry.id, avoid=nodes, follow_exc=False):
+                ctx.ok(inst, f.loc(), 'normal exit unreachable without it')
+            else:
+                ctx.violation('%s:observer-%s-incomplete-%s' % (f.qualname, 'connect' if f is con else 'disconnect', what.replace(' ', '-')), f.loc(),
+                              'a read-only node that %s is %s the %s on some path: %s'
+                              % ('connects' if f is con else 'disconnects', 'not put into' if f is con else 'not removed from', what,
+                                 'it is never sent entries and cannot converge' if f is con else 'the leader keeps serving / counting a node that is gone'), instance=inst)
+    ctx.expect_min(10)
 
 
 @rule('R-selfnode-deref', 'every attribute access on the own-node object in code reachable from the tick or the message '
@@ -566,7 +593,7 @@ def _mini_eval(func, env, resolve):
         if isinstance(e, ast.Name):
             if e.id in env:
                 return env[e.id]
-            raise AnalysisError('hasQuorum: unbound name %s' % e.id)
+            raise AnalysisError('hasQuorum: unbound name %s (read before it is assigned)' % e.id)
         if isinstance(e, ast.Constant):
             return e.value
         if isinstance(e, ast.BinOp):
@@ -584,10 +611,14 @@ def _mini_eval(func, env, resolve):
         for s in stmts:
             if isinstance(s, ast.Expr) and isinstance(s.value, ast.Constant):
                 continue
+            if isinstance(s, ast.Pass):
+                continue
             if isinstance(s, ast.Assign) and len(s.targets) == 1 and isinstance(s.targets[0], ast.Name):
                 r = resolve(s.value, env)
                 env[s.targets[0].id] = r[0] if r is not None else ev(s.value)
             elif isinstance(s, ast.AugAssign) and isinstance(s.target, ast.Name):
+                if s.target.id not in env:
+                    raise AnalysisError('hasQuorum: `%s` updates a name that is not bound on this path' % unparse(s)[:40])
                 env[s.target.id] = U.eval_arith(ast.BinOp(left=ast.Constant(value=env[s.target.id]), op=s.op, right=ast.Constant(value=ev(s.value))), {})
             elif isinstance(s, ast.If):
                 run(s.body if ev(s.test) else s.orelse)
@@ -682,7 +713,11 @@ def r_hasquorum(ctx):
                             if bool(v) != want and bad is None:
                                 bad = (n, c, o, st, s, v, want)
     except AnalysisError as e:
-        ctx.unproven('hasQuorum arithmetic', f.loc(), str(e))
+        if 'not bound' in str(e) or 'unbound name' in str(e):
+            # a name read before any assignment on some path: hasQuorum raises for that cluster shape
+            ctx.violation('%s:reads-unbound-name' % f.qualname, f.loc(), 'for some cluster shape %s' % str(e).replace('hasQuorum: ', 'hasQuorum '), instance='hasQuorum arithmetic')
+        else:
+            ctx.unproven('hasQuorum arithmetic', f.loc(), str(e))
         ctx.expect_min(1)
         return
     ctx.tick(n_eval)
